@@ -942,6 +942,45 @@ impl<F: FromUniformBytes<64> + Ord> MockProver<F> {
             )
         };
 
+        // Check the constraints with an additive selector (trash arguments). The honest
+        // prover uses the compressed constraints as trash polynomial, so the identity the
+        // verifier checks, `compressed - (1 - q) * trash = 0`, amounts to `q * constraint =
+        // 0` on every row, for every constraint of the argument.
+        let trash_errors = self.cs.trashcans.iter().enumerate().flat_map(|(trash_index, trash)| {
+            let blinding_rows =
+                (self.n as usize - (self.cs.blinding_factors() + 1))..(self.n as usize);
+            let load = &load;
+            (gate_row_ids.clone().into_par_iter().chain(blinding_rows.into_par_iter()))
+                .flat_map(move |row| {
+                    trash
+                        .constraint_expressions()
+                        .iter()
+                        .enumerate()
+                        .filter_map(move |(poly_index, poly)| {
+                            let constraint: metadata::Constraint =
+                                ((trash_index, trash.name()).into(), poly_index, "").into();
+                            match load(trash.selector(), row) * load(poly, row) {
+                                Value::Real(x) if x.is_zero_vartime() => None,
+                                Value::Real(_) => Some(VerifyFailure::ConstraintNotSatisfied {
+                                    constraint,
+                                    location: FailureLocation::find_expressions(
+                                        &self.cs,
+                                        &self.regions,
+                                        row,
+                                        Some(poly).into_iter(),
+                                    ),
+                                    cell_values: vec![],
+                                }),
+                                Value::Poison => {
+                                    Some(VerifyFailure::ConstraintPoisoned { constraint })
+                                }
+                            }
+                        })
+                        .collect::<Vec<_>>()
+                })
+                .collect::<Vec<_>>()
+        });
+
         let mut cached_table = Vec::new();
         let mut cached_table_identifier = Vec::new();
         // Check that all lookups exist in their respective tables.
@@ -1085,6 +1124,7 @@ impl<F: FromUniformBytes<64> + Ord> MockProver<F> {
         let mut errors: Vec<_> = iter::empty()
             .chain(selector_errors)
             .chain(gate_errors)
+            .chain(trash_errors)
             .chain(lookup_errors)
             .chain(perm_errors)
             .collect();
